@@ -412,6 +412,7 @@ struct Walker {
     steps: usize,
     ended_empty: bool,
     overrun: bool,
+    exact: bool, // every step asks for exactly the next entry
 }
 
 struct Case<'a> {
@@ -429,6 +430,7 @@ struct Case<'a> {
     /// per opened handle (1-based k): (a read was issued, the first read was at the EOF cookie and
     /// nothing but EOF/0 reads followed) — see `Host.eofQuirk` in the model
     hq: HashMap<usize, (bool, bool)>,
+    wstats: Vec<String>,
     oracle: Vec<(String, String)>,
 }
 
@@ -694,7 +696,7 @@ fn gen_and_run(c: &mut Case, be: &dyn Backend, dir_ino: u64, r: &mut Prng, budge
     }
     for _ in 0..nw {
         let hk = if c.open_now.is_empty() || pseudo { 0 } else { *r.pick(&c.open_now) };
-        walkers.push(Walker { handle_k: hk, plus: r.chance(1, 2), off: 0, done: false, failed: false, got: vec![], steps: 0, ended_empty: false, overrun: false });
+        walkers.push(Walker { handle_k: hk, plus: r.chance(1, 2), off: 0, done: false, failed: false, got: vec![], steps: 0, ended_empty: false, overrun: false, exact: !big && r.chance(1, 4) });
     }
     let mut total_steps = 0usize;
     while walkers.iter().any(|w| !w.done) && total_steps < budget {
@@ -734,7 +736,7 @@ fn gen_and_run(c: &mut Case, be: &dyn Backend, dir_ino: u64, r: &mut Prng, budge
             } else {
                 match r.below(10) { 0..=2 => need, 3 => need + r.below(8) as usize, 4 => need + r.below(64) as usize, 5..=7 => need + r.below(900) as usize, 8 => 4096, _ => *r.pick(&[65536usize, 1 << 20, 131072]) }
             };
-            let size = size.max(need);
+            let size = if walkers[wi].exact { need } else { size.max(need) };
             let op = format!("{}:{}:{}:{}:w{}", if plus { "rp" } else { "rd" }, walkers[wi].handle_k, size, walkers[wi].off, wi);
             c.exec(be, dir_ino, &op, &mut walkers);
             if big && r.chance(1, 30) {
@@ -781,7 +783,7 @@ fn replay_ops(c: &mut Case, be: &dyn Backend, dir_ino: u64, ops: &[String]) -> V
         if let Some(rd) = parse_rd(op) {
             if let Some(w) = rd.walker {
                 while walkers.len() <= w {
-                    walkers.push(Walker { handle_k: rd.k, plus: rd.plus, off: 0, done: false, failed: false, got: vec![], steps: 0, ended_empty: false, overrun: false });
+                    walkers.push(Walker { handle_k: rd.k, plus: rd.plus, off: 0, done: false, failed: false, got: vec![], steps: 0, ended_empty: false, overrun: false, exact: false });
                 }
             }
         }
@@ -812,6 +814,9 @@ fn finish_case(c: &mut Case, be: &dyn Backend, base: u64, walkers: &[Walker]) ->
         }
     }
     c.check_walkers(walkers);
+    for w in walkers {
+        c.wstats.push(format!("walk:{}{}", if w.failed { "failed" } else if w.done && w.ended_empty { "complete" } else { "incomplete" }, if w.exact { ":exact" } else { "" }));
+    }
     let sk: Vec<String> = c.dir.sk.iter().map(|(o, e)| format!("{}:{}", o, e)).collect();
     let line = format!("fs={} nod={} mode={} dn={} q={} dir={} sk={} ops={}", c.fsk, if c.nod { 1 } else { 0 }, if c.srv_mode { "srv" } else { "api" },
         c.dir.path.rsplit('/').next().unwrap_or(""), if c.dir.quirk { 1 } else { 0 }, c.dir.dir_field, sk.join(","), c.ops.join(";"));
@@ -856,7 +861,7 @@ fn mk_pseudo(k: usize, tmp: &str, r: &mut Prng) -> Pseudo {
 
 fn run_one(out: &mut Out, fsk: &str, nod: bool, srv_mode: bool, dir: &DirInfo, pseudo: Option<&Pseudo>, sock: (RawFd, RawFd),
            gen: Option<(&mut Prng, usize)>, ops: Option<&[String]>) {
-    let mut c = Case { fsk, nod, srv_mode, dir, ops: vec![], outs: vec![], ids: HashMap::new(), opened: vec![], open_now: vec![], pool: vec![], refs: BTreeMap::new(), hq: HashMap::new(), oracle: vec![] };
+    let mut c = Case { fsk, nod, srv_mode, dir, ops: vec![], outs: vec![], ids: HashMap::new(), opened: vec![], open_now: vec![], pool: vec![], refs: BTreeMap::new(), hq: HashMap::new(), wstats: vec![], oracle: vec![] };
     let ctx = Context::default();
     let (line, o) = match fsk {
         "pt" => {
@@ -910,6 +915,9 @@ fn run_one(out: &mut Out, fsk: &str, nod: bool, srv_mode: bool, dir: &DirInfo, p
     out.stat(&format!("mode:{}", if srv_mode { "srv" } else { "api" }));
     out.stat(&format!("dir:{}", dir.path.rsplit('/').next().unwrap_or("")));
     out.stat_n("ops", c.ops.len() as u64);
+    for w in &c.wstats {
+        out.stat(w);
+    }
     for (op, o) in c.ops.iter().zip(c.outs.iter()) {
         let kind = op.split(':').next().unwrap_or("");
         let res = if o.starts_with("ok:#") { "ok-many" } else if o == "ok:" { "ok-empty" } else if o.starts_with("ok") { "ok" } else { o.as_str() };
